@@ -382,31 +382,55 @@ pub fn bfs() -> BfsResult {
 // ------------------------------------------------------------------ unmerged histories (sweep)
 
 pub struct C12Histories {
-    depth: usize,
-    offsets: Vec<u64>,
+    /// (prefix executed first, maximal suffix length): every suffix of length 1..=depth over the alphabet follows the prefix
+    blocks: Vec<(Vec<u8>, usize)>,
+}
+
+/// a complete activation with share id A / B
+pub const ACT_A: [u8; 5] = [0, 2, 3, 4, 6];
+pub const ACT_B: [u8; 5] = [1, 2, 3, 4, 6];
+
+fn block_size(depth: usize) -> u64 {
+    let n = EVENTS.len() as u64;
+    (1..=depth as u32).map(|d| n.pow(d)).sum()
 }
 
 impl C12Histories {
     pub fn new() -> Self {
-        C12Histories { depth: 4, offsets: vec![] }
+        C12Histories { blocks: vec![] }
+    }
+    pub fn blocks_for(tier: Tier) -> Vec<(Vec<u8>, usize)> {
+        let reactivated: Vec<u8> = ACT_A.iter().chain([9u8].iter()).chain(ACT_B.iter()).copied().collect();
+        let d = if tier == Tier::Quick { [5, 4, 3] } else { [6, 5, 4] };
+        vec![(vec![], d[0]), (ACT_A.to_vec(), d[1]), (reactivated, d[2])]
     }
     fn history(&self, idx: u64) -> Vec<u8> {
-        // all histories of length 1..=depth, shortest first
-        let n = EVENTS.len() as u64;
-        let mut len = 1;
         let mut i = idx;
-        let mut count = n;
-        while i >= count {
-            i -= count;
-            len += 1;
-            count *= n;
+        for (prefix, depth) in &self.blocks {
+            let size = block_size(*depth);
+            if i >= size {
+                i -= size;
+                continue;
+            }
+            // all suffixes of length 1..=depth, shortest first
+            let n = EVENTS.len() as u64;
+            let mut len = 1;
+            let mut count = n;
+            while i >= count {
+                i -= count;
+                len += 1;
+                count *= n;
+            }
+            let mut h = vec![0u8; len];
+            for k in (0..len).rev() {
+                h[k] = (i % n) as u8;
+                i /= n;
+            }
+            let mut full = prefix.clone();
+            full.extend(h);
+            return full;
         }
-        let mut h = vec![0u8; len];
-        for k in (0..len).rev() {
-            h[k] = (i % n) as u8;
-            i /= n;
-        }
-        h
+        panic!("VERIF: history index out of range");
     }
 }
 
@@ -418,20 +442,18 @@ impl Prop for C12Histories {
         "model_checking"
     }
     fn prepare(&mut self, tier: Tier) -> Result<(), String> {
-        self.depth = if tier == Tier::Quick { 5 } else { 6 };
-        let _ = &self.offsets;
+        self.blocks = Self::blocks_for(tier);
         Ok(())
     }
     fn n_cases(&self) -> u64 {
-        let n = EVENTS.len() as u64;
-        (1..=self.depth as u32).map(|d| n.pow(d)).sum()
+        self.blocks.iter().map(|(_, d)| block_size(*d)).sum()
     }
     fn describe(&self, idx: u64) -> Value {
         let h = self.history(idx);
         json!({"idx": idx, "history": h.iter().map(|e| EVENTS[*e as usize]).collect::<Vec<_>>()})
     }
     fn rule(&self) -> String {
-        "every history of server PDUs of length <= depth over the 12-letter alphabet, replayed on a fresh real client with an input attempt (write and try_write) after every step; non-trivial: histories in which the input window opens at least once".into()
+        "every history of server PDUs of length <= depth over the 12-letter alphabet, replayed on a fresh real client with an input attempt (write and try_write) after every step, from three starting points: the fresh client (depth 5, 6 in thorough), a client that completed an activation (depth 4 / 5), and a client that completed an activation, was deactivated and completed a second activation with another share id (depth 3 / 4); the prefixes are executed and checked like any other step; non-trivial: histories in which the input window opens at least once".into()
     }
     fn assumptions(&self) -> Vec<String> {
         vec![]
